@@ -172,7 +172,7 @@ func zzvCtlNewWorld(t testing.TB, hold bool) *zzvCtlWorld {
 			}
 		}
 	})
-	w.base = w.backlog()
+	w.rebase()
 	if hold {
 		w.holdAll(true)
 	}
@@ -225,6 +225,34 @@ func (w *zzvCtlWorld) backlog() map[string]int64 {
 		out[n] = c.deliv[n] - c.done[n]
 	}
 	return out
+}
+
+// rebase records the idle backlog: the counters must have been unchanged for a number of consecutive samples (late
+// frames of the set-up phase - route / node-info floods written before the control-only filter was installed - are
+// still being processed otherwise).
+func (w *zzvCtlWorld) rebase() {
+	same := 0
+	prev := w.counters()
+	for dl := time.Now().Add(20 * time.Second); time.Now().Before(dl) && same < 8; {
+		time.Sleep(8 * time.Millisecond)
+		cur := w.counters()
+		eq := true
+		for _, n := range zzvCtlAgents {
+			if cur.deliv[n] != prev.deliv[n] || cur.done[n] != prev.done[n] {
+				eq = false
+			}
+		}
+		if eq {
+			same++
+		} else {
+			same = 0
+		}
+		prev = cur
+	}
+	w.base = map[string]int64{}
+	for _, n := range zzvCtlAgents {
+		w.base[n] = prev.deliv[n] - prev.done[n]
+	}
 }
 
 func (w *zzvCtlWorld) quiet() bool {
@@ -536,7 +564,7 @@ func (w *zzvCtlWorld) repair() bool {
 		ag.controlMu.Unlock()
 	}
 	w.down = map[string]bool{}
-	w.base = w.backlog()
+	w.rebase()
 	w.holdAll(true)
 	return true
 }
